@@ -77,6 +77,12 @@ impl Prop for C11 {
                     "+------+\n|{a,b} |\n| text |\n+------+",
                     "+---------+\n| +-----+ |\n| | {a} | |\n| +-----+ |\n|  {b}    |\n+---------+",
                     "{a} outside",
+                    "+---+\n|{a}|\n+---+",
+                    "+-----+\n|  {a}|\n+-----+",
+                    "+-----+\n|{a}  |\n+-----+",
+                    "+----+\n|ab  |\n|  cd|\n+----+",
+                    ".---.\n|{w}|\n'---'",
+                    "+---+---+\n|{a}|{b}|\n+---+---+",
                 ] {
                     f(Case::s(d));
                 }
